@@ -242,6 +242,26 @@ pub fn dump(args: &[String]) -> i32 {
         }
     }
     drop(sess);
+    // C10 / C19: what a CLEAN reopen of the recovered directory would show, probed on a copy while this handle is alive
+    // (nothing is in flight after `open` returned): occupancy, root and sequence number must be those of the recovering
+    // handle — what recovery patched only in memory shows up here, before the follow-up commit can heal it
+    {
+        let copy = format!("{dir}.r2");
+        let _ = std::fs::remove_dir_all(&copy);
+        if copy_db_files(&dir, &copy).is_ok() {
+            match Nomt::<Blake3Hasher>::open(cfg.options(&copy)) {
+                Ok(db2) => rep.push_str(&format!(
+                    "reopen2 {} {} {} {}\n",
+                    db.hash_table_utilization().occupied,
+                    db2.hash_table_utilization().occupied,
+                    (db2.root().into_inner() == db.root().into_inner()) as u8,
+                    (db2.sync_seqn() == db.sync_seqn()) as u8
+                )),
+                Err(e) => rep.push_str(&format!("reopen2-error {}\n", format!("{e:#}").replace(' ', "_"))),
+            }
+        }
+        let _ = std::fs::remove_dir_all(&copy);
+    }
     // follow-up commit: the reopened store must accept further commits that behave as in the model
     let fk: Key = [0xA5; 32];
     let fv = vec![0x5A; 77];
@@ -256,10 +276,39 @@ pub fn dump(args: &[String]) -> i32 {
         }
         Err(e) => rep.push_str(&format!("followup finish-error {e:#}\n")),
     }
-    rep.push_str(&format!("occupied {}\n", db.hash_table_utilization().occupied));
+    let occ1 = db.hash_table_utilization().occupied;
+    rep.push_str(&format!("occupied {}\n", occ1));
+    // C10 / C19: a CLEAN close and reopen of the recovered store must be transparent — same root, sequence number and
+    // hash-table occupancy (what recovery patched only in memory shows up here)
+    let (root1, seqn1) = (db.root().into_inner(), db.sync_seqn());
+    drop(db);
+    let _ = iohook::uninstall();
+    let mut tries = 0;
+    loop {
+        match Nomt::<Blake3Hasher>::open(cfg.options(&dir)) {
+            Ok(db2) => {
+                rep.push_str(&format!(
+                    "reopen2 {} {} {} {}\n",
+                    occ1,
+                    db2.hash_table_utilization().occupied,
+                    (db2.root().into_inner() == root1) as u8,
+                    (db2.sync_seqn() == seqn1) as u8
+                ));
+                drop(db2);
+                break;
+            }
+            Err(e) => {
+                tries += 1;
+                if tries > 400 {
+                    rep.push_str(&format!("reopen2-error {e:#}\n").replace(' ', "_").replace("reopen2-error_", "reopen2-error "));
+                    break;
+                }
+                std::thread::sleep(std::time::Duration::from_millis(5));
+            }
+        }
+    }
     rep.push_str("END\n");
     let _ = std::fs::write(&out, rep);
-    drop(db);
     0
 }
 
@@ -274,6 +323,8 @@ struct Report {
     recovery_events: u64,
     /// `hash_table_utilization().occupied` of the handle that performed the recovery (after the follow-up commit)
     occupied: Option<usize>,
+    /// failures of the second, clean reopen (tagged messages)
+    reopen2: Vec<String>,
 }
 
 fn parse_report(path: &str) -> Report {
@@ -296,6 +347,17 @@ fn parse_report(path: &str) -> Report {
             }
             "END" => r.complete = true,
             "occupied" => r.occupied = f.get(1).and_then(|x| x.parse().ok()),
+            "reopen2" => {
+                let n = |i: usize| f.get(i).and_then(|x| x.parse::<u64>().ok()).unwrap_or(u64::MAX);
+                if n(1) != n(2) {
+                    r.reopen2.push(format!("C10 hash-table occupancy changed across a clean close / reopen of the recovered store: {} -> {}", n(1), n(2)));
+                    r.reopen2.push(format!("C19 reported hash-table occupancy after a clean reopen of the recovered store is {} but the handle that wrote the table counted {} stored pages", n(2), n(1)));
+                }
+                if n(3) != 1 || n(4) != 1 {
+                    r.reopen2.push("C10 root / sync sequence number changed across a clean close / reopen of the recovered store".to_string());
+                }
+            }
+            "reopen2-error" => r.reopen2.push(format!("C10 the recovered store does not reopen after a clean close: {}", f.get(1).cloned().unwrap_or(""))),
             _ => r.problems.push(l.to_string()),
         }
     }
@@ -639,6 +701,10 @@ pub fn run(args: &[String], out: &mut Sink) {
                                     rep.root, rep.seqn, info.pre.1, info.post.1
                                 ));
                             } else {
+                                for m in rep.reopen2.iter() {
+                                    out.fail(format!("{m}: {desc}"));
+                                }
+                                out.count("clean_reopen_after_recovery");
                                 if !rep.problems.is_empty() {
                                     out.fail(format!("{prop} reopened store misbehaves after {desc}: {:?}", rep.problems));
                                 }
@@ -745,6 +811,9 @@ pub fn run(args: &[String], out: &mut Sink) {
 
 fn cleanup(d: &str) {
     let _ = std::fs::remove_dir_all(d);
+    if std::env::var("VH_KEEP_REPORTS").is_ok() {
+        return; // debugging aid: keep the children's report files
+    }
     for ext in ["trace", "trace2", "child", "report", "report.rtrace"] {
         let _ = std::fs::remove_file(format!("{d}.{ext}"));
     }
